@@ -49,6 +49,10 @@ def build(rng, case):
     n = case["n"] or int(rng.integers(1, 41))
     els = [ELS[int(i)] for i in rng.integers(0, len(ELS), n)]
     scale = float(rng.choice([1.0, 10.0, 1e3, 1e-3]))
+    if case["s"] % 6 == 5:
+        # "coordinates of any magnitude": astronomically large and vanishingly small numbers are numbers too
+        scale = float([1e6, 1e160, 1e250, 1e-160, 1e-300, 3e154][case["s"] // 6 % 6])
+        case["_extreme_magnitude"] = True
     coords = [[fmt(v, rng) for v in rng.uniform(-1, 1, 3) * scale] for _ in range(n)]
     if case["ids"] == "inorder":
         ids = ["a%d" % (i + 1) for i in range(n)]
@@ -310,6 +314,8 @@ def run_case(case, ctx):
     st.seen("document_wrapper", case.get("_wrap"))
     if case.get("_attribute_order"):
         st.count("documents_with_atom_attributes_in_another_order")
+    if case.get("_extreme_magnitude"):
+        st.count("documents_with_coordinates_of_extreme_magnitude")
     if case.get("_bonds_first"):
         st.count("documents_with_the_bond_array_ahead_of_the_atom_array")
     if case.get("_parts") and bonds:
@@ -330,6 +336,8 @@ def requirements(stats, tier):
     need = []
     if stats.get("loads_checked") < (1500 if tier == "quick" else 500000):
         need.append("too few loads observed: %d" % stats.get("loads_checked"))
+    if stats.get("documents_with_coordinates_of_extreme_magnitude") < (20 if tier == "quick" else 5000):
+        need.append("documents with coordinates of extreme magnitude (1e-300 .. 1e250): %d" % stats.get("documents_with_coordinates_of_extreme_magnitude"))
     if stats.get("documents_with_the_bond_array_ahead_of_the_atom_array") < (10 if tier == "quick" else 1000):
         need.append("documents with the bond array ahead of the atom array: %d" % stats.get("documents_with_the_bond_array_ahead_of_the_atom_array"))
     if stats.get("documents_with_atom_attributes_in_another_order") < (50 if tier == "quick" else 5000):
